@@ -77,7 +77,11 @@ def run_campaigns(seed, seconds, plans=None, death_hook=True):
         execs = 0
         if os.path.exists(findings + ".count"):
             try:
-                execs = int(open(findings + ".count").read().split()[0])
+                lines = open(findings + ".count").read().splitlines()
+                execs = int(lines[0].split()[0])
+                if len(lines) > 1:
+                    for k, v in json.loads(lines[1]).items():
+                        stats.classes["atheris:%s:%s:%s" % (mode, corpus, k)] += v
             except Exception:  # noqa: BLE001
                 pass
         stats.evaluations += execs
